@@ -303,4 +303,13 @@ def write_evidence(prop, tier, seed, results, wall, nviol, known_hits, sens=None
 
 
 if __name__ == '__main__':
-    sys.exit(main())
+    try:
+        rc = main()
+    except SystemExit:
+        raise
+    except BaseException as e:   # a crash of the machinery is never an alarm (exit 1 is reserved for VIOLATION lines)
+        import traceback
+        traceback.print_exc()
+        print(f"UNDECIDED machinery error: {type(e).__name__}: {e}")
+        rc = 2
+    sys.exit(rc)
